@@ -1,9 +1,11 @@
 import Sif.Proofs.C20Mint
 import Sif.Proofs.C20Rewards
+import Sif.Proofs.C20RewardsEdits
 import Sif.Proofs.C11Chain
 import Sif.Generated.DispConsts
 import Sif.Generated.MintCallers
 import Sif.Generated.DispHooks
+import Sif.Generated.AccuReset
 /-
   C20 — Policy-driven issuance is bounded.  Property theorems only.
 
@@ -422,6 +424,74 @@ theorem rewards_restart (fix : Bool) (periods : List Period) (es1 es2 : List Env
         cases run fix periods (h + (e :: es).length) a1 es2 with
         | error x => rfl
         | ok r2 => rfl
+
+/-! ### histories in which the reward-period list is edited while periods run
+
+  `Step.edit` replaces the whole stored list (an accepted `MsgAddRewardPeriodRequest`) between any
+  two blocks; the accumulator is part of the state and survives the edit — it is dropped only by
+  the EndBlocker in the first block of a period (F10 semantics).  Quantifiers: every initial list,
+  height and accumulator, every sequence of edits and blocks, every behaviour of the pool split.
+  Hypothesis `cleanSwitches`: a period takes over only at its own start block (after its
+  predecessor, after a gap, by replacing / overtaking a running period). -/
+
+/-- per block: whatever period is current, the block creates at most that period's bound
+    (0 off distribution blocks, ⌊alloc/len⌋ in its first block, mod·⌊alloc/len⌋ later) — in
+    particular a period never pays out entitlement accumulated by a period that was cut short -/
+theorem rewards_per_block_edits (ps : List Period) (steps : List Step) (h accu a : Nat) (tr : List BlockObs)
+    (henv : stepsEnv ps steps = true) (hcl : cleanSwitches none ps h steps = true)
+    (hr : runSteps true ps h accu steps = .ok (a, tr)) : traceBlocksOK tr = true :=
+  steps_blocks_ok steps none ps h accu a tr henv hcl (fun _ hq => by cases hq) hr
+
+/-- per period: what is created in the blocks in which `q` is the current period never exceeds
+    `q`'s allocation, whatever was left in the accumulator by the periods before it -/
+theorem rewards_per_period_edits (q : Period) (hqa : q.alloc ≠ 0) (ps : List Period) (steps : List Step)
+    (h accu a : Nat) (tr : List BlockObs)
+    (henv : stepsEnv ps steps = true) (hcl : cleanSwitches none ps h steps = true)
+    (hr : runSteps true ps h accu steps = .ok (a, tr)) : sumFor q tr ≤ q.alloc := by
+  have hb := steps_budget q hqa steps none ps h accu a tr henv hcl hr
+  have hle : share q * (q.stop - q.start + 1) ≤ q.alloc := Nat.div_mul_le_self _ _
+  unfold budgetE at hb
+  split at hb
+  · omega
+  · have : ¬ ((none : Option Period) = some q ∧ h ≤ q.stop) := fun c => by cases c.1
+    rw [if_neg this] at hb
+    omega
+
+/-- the seeded-change history (a running period with mod 10 replaced between two distribution
+    blocks by a small period starting later): hypotheses hold, the repaired model stays within
+    every bound — non-vacuity of the two theorems above -/
+def editA : Period := ⟨10, 1009, 1000000, 10⟩
+def editB : Period := ⟨20, 29, 10, 1⟩
+def editEnv : Env := ⟨true, [10 ^ 9], 0⟩
+def editSteps : List Step :=
+  List.replicate 7 (.block editEnv) ++ [.edit [editA]] ++ List.replicate 6 (.block editEnv) ++
+  [.edit [editB]] ++ List.replicate 17 (.block editEnv)
+
+theorem edit_history_ok :
+    stepsEnv [] editSteps = true ∧ cleanSwitches none [] 2 editSteps = true ∧
+    (runSteps true [] 2 0 editSteps).toOption.map (fun r =>
+      (r.1, sumFor editA r.2, sumFor editB r.2, traceBlocksOK r.2)) = some (0, 1000, 10, true) := by
+  decide
+
+/-- WHERE the accumulator is dropped (regenerated from x/clp/abci.go `EndBlocker`): read once;
+    dropped exactly under `height == RewardPeriodStartBlock` — at a period START, the model's
+    `accuIn` — ; stored as zero after a distribution and carried (`blockDistribution`) otherwise —
+    the model's `finish`; and nobody else writes it.  A reset moved to the period's end block, or
+    a new writer, changes the fact and fails this obligation. -/
+theorem accumulator_reset_at_period_start :
+    Sif.Generated.AccuReset.endBlockerFound = 1 ∧
+    Sif.Generated.AccuReset.accuWrites =
+      [ ("blockDistributionAccu :=", "keeper.GetBlockDistributionAccu(ctx)",
+          ["currentPeriod != nil && !currentPeriod.RewardPeriodAllocation.IsZero()"]),
+        ("blockDistributionAccu =", "sdk.ZeroUint()",
+          ["currentPeriod != nil && !currentPeriod.RewardPeriodAllocation.IsZero()",
+           "uint64(ctx.BlockHeight()) == currentPeriod.RewardPeriodStartBlock"]),
+        ("SetBlockDistributionAccu", "sdk.ZeroUint()",
+          ["currentPeriod != nil && !currentPeriod.RewardPeriodAllocation.IsZero()", "isDistributionBlock"]),
+        ("SetBlockDistributionAccu", "blockDistribution",
+          ["currentPeriod != nil && !currentPeriod.RewardPeriodAllocation.IsZero()", "!(isDistributionBlock)"]) ] ∧
+    Sif.Generated.AccuReset.setAccuCallers = ["x/clp/abci.go:EndBlocker", "x/clp/abci.go:EndBlocker"] := by
+  decide
 
 /-! ### F10: the pinned tree (`fix = false`) violates the per-block and per-period clauses -/
 
